@@ -11,9 +11,13 @@
    re-segmented packets with the inputs in every compared byte incl. the IPv6 flow
    label and the PSH bit (per buffer and as a multiset over the batch), and all clauses
    of holdsb but UDP order as one boolean.  UDP order is refuted as stated (known
-   finding gro-udp-noncandidate-overtaken); its restricted form is a statement only.
+   finding gro-udp-noncandidate-overtaken); its restricted form (over the datagrams the
+   coalescer considers) is proved for all batches, and with it: no error is returned and
+   holdsb with the restricted order clause holds for every batch (C16_gro_holdsb_partial),
+   holdsb itself for every batch whose UDP datagrams all pass the coalescer's gates
+   (C16_gro_holdsb_eligible_batches).
    The four repaired defects stay machine-checked as refutations about Old. *)
-From WG Require Import Base.Prelude Gen.Constants Gro.Bytes Gro.Model Gro.OldModel Gro.KernelSpec Gro.Spec Gro.Proofs Gro.Csum Gro.Headers Gro.HeadersTcp Gro.Lossless Gro.Holds Gro.Examples.
+From WG Require Import Base.Prelude Gen.Constants Gro.Bytes Gro.Model Gro.OldModel Gro.KernelSpec Gro.Spec Gro.Proofs Gro.Csum Gro.Headers Gro.HeadersTcp Gro.Lossless Gro.Holds Gro.Order Gro.Examples Gro.HoldsAll.
 From WG Require Gro.Check.
 Local Open Scope N_scope.
 
@@ -170,11 +174,77 @@ Definition C16_gro_holdsb_statement : Prop := gro_lossless_statement.
 Theorem C16_gro_holdsb_refuted : ~ C16_gro_holdsb_statement.
 Proof. exact gro_lossless_refuted. Qed.
 Print Assumptions C16_gro_holdsb_refuted.
-(* NOT proved (statement only; evaluated on every generated batch): order is preserved among
-   the datagrams of a flow that the coalescer considers (candidates with a non-empty payload). *)
-Definition C16_gro_udp_order_restricted_statement : Prop :=
-  forall canUDP offset bufs, let s := handle_gro canUDP offset bufs in s_err s = false ->
-    udp_order_gen WG.Gro.Check.keep_eligible bufs (s_tw s) (s_bufs s) = true.
+(* handleGRO returns no error on a batch without empty packets (offset >= virtioNetHdrLen). *)
+Theorem C16_gro_no_error : forall (canUDP : bool) (offset : N) (bufs : list buf),
+  VH <= offset -> (forall b, In b bufs -> b_pkt b <> []) -> s_err (handle_gro canUDP offset bufs) = false.
+Proof. exact gro_no_error. Qed.
+Print Assumptions C16_gro_no_error.
+
+(* UDP order, index level: read the written buffers in toWrite order, each contributing its
+   members in order; the datagrams of any one flow K that pass the coalescer's gates
+   (PK = Check.udp_eligible and flow key K) then appear in the order of the batch. *)
+Theorem C16_gro_udp_order_indices : forall (canUDP : bool) (offset : N) (bufs : list buf) (K : list N),
+  let s := handle_gro canUDP offset bufs in
+  s_err s = false ->
+  filter (PK bufs K) (flat_map (members (s_trace s)) (s_tw s)) = filter (PK bufs K) (indices (length bufs) 0).
+Proof. exact gro_udp_order_indices. Qed.
+Print Assumptions C16_gro_udp_order_indices.
+
+(* Per written buffer: the datagrams the kernel makes of a coalesced UDP buffer all pass the
+   coalescer's gates and carry, one by one, the flow keys of the members (which are UDP datagrams);
+   a coalesced TCP buffer and its members hold no UDP datagram. *)
+Theorem C16_gro_udp_segments_eligible : forall (canUDP : bool) (offset : N) (bufs : list buf) (j : N),
+  let s := handle_gro canUDP offset bufs in
+  s_err s = false -> merged_into (s_trace s) j ->
+  let b := get_buf (s_bufs s) j in
+  v_gso (dec_vhdr (b_hdr b)) = GSO_UDP_L4 ->
+  map (fun p => (WG.Gro.Check.udp_eligible p, mkey p)) (kernel_segment (b_hdr b) (b_pkt b)) =
+  map (fun m => (true, mkey (pk bufs m))) (members (s_trace s) j) /\
+  (forall m, In m (members (s_trace s) j) -> udp_flow (pk bufs m) <> None).
+Proof. exact gro_udp_segments_eligible. Qed.
+Print Assumptions C16_gro_udp_segments_eligible.
+Theorem C16_gro_tcp_segments_no_udp_flow : forall (canUDP : bool) (offset : N) (bufs : list buf) (j : N),
+  let s := handle_gro canUDP offset bufs in
+  s_err s = false -> merged_into (s_trace s) j ->
+  let b := get_buf (s_bufs s) j in
+  v_gso (dec_vhdr (b_hdr b)) <> GSO_UDP_L4 ->
+  (forall p, In p (kernel_segment (b_hdr b) (b_pkt b)) -> udp_flow p = None) /\
+  (forall m, In m (members (s_trace s) j) -> udp_flow (pk bufs m) = None).
+Proof. exact gro_tcp_segments_no_udp_flow. Qed.
+Print Assumptions C16_gro_tcp_segments_no_udp_flow.
+
+(* UDP order, as the boolean clause of the specification over the datagrams the coalescer
+   considers (Check.keep_eligible: every non-UDP packet, and the UDP datagrams that pass the
+   gates of udpGRO -- no IP options, consistent length fields, not a fragment, non-empty payload):
+   for every batch, per flow, the kernel's datagrams are the input's, in order, in every compared
+   byte.  (Was a statement only; the harness evaluates the same boolean on every batch.) *)
+Theorem C16_gro_udp_order_restricted : forall (canUDP : bool) (offset : N) (bufs : list buf),
+  let s := handle_gro canUDP offset bufs in
+  s_err s = false ->
+  udp_order_gen WG.Gro.Check.keep_eligible bufs (s_tw s) (s_bufs s) = true.
+Proof. exact gro_udp_order_restricted. Qed.
+Print Assumptions C16_gro_udp_order_restricted.
+
+(* The strongest true forms of C16_gro_holdsb_statement (which is refuted above):
+   (a) for EVERY batch (of bytes, without empty packets, offset >= 10) handleGRO returns no error
+       and all clauses of holdsb hold, the order clause restricted as above; *)
+Theorem C16_gro_holdsb_partial : forall (canUDP : bool) (offset : N) (bufs : list buf),
+  preb offset bufs = true -> bytes_ok bufs ->
+  let s := handle_gro canUDP offset bufs in
+  s_err s = false /\
+  bookkeeping_ok bufs (s_tw s) (s_bufs s) && passthrough_ok bufs (s_tw s) (s_bufs s)
+  && floweq_ok bufs (s_tw s) (s_bufs s) && headers_valid_ok (s_tw s) (s_bufs s)
+  && udp_order_gen WG.Gro.Check.keep_eligible bufs (s_tw s) (s_bufs s) = true.
+Proof. exact gro_holdsb_partial. Qed.
+Print Assumptions C16_gro_holdsb_partial.
+(* (b) holdsb itself, for every batch in which every UDP datagram passes the coalescer's gates. *)
+Theorem C16_gro_holdsb_eligible_batches : forall (canUDP : bool) (offset : N) (bufs : list buf),
+  preb offset bufs = true -> bytes_ok bufs ->
+  forallb (fun b => WG.Gro.Check.keep_eligible (b_pkt b)) bufs = true ->
+  let s := handle_gro canUDP offset bufs in
+  s_err s = false /\ holdsb bufs (s_tw s) (s_bufs s) = true.
+Proof. exact gro_holdsb_eligible_batches. Qed.
+Print Assumptions C16_gro_holdsb_eligible_batches.
 
 (* History of the four repaired defects: refuted for the code before the fixes (Old),
    the same scenarios satisfy the whole specification now. *)
